@@ -25,6 +25,8 @@ import YarlProofs.C09Idn
   Continued in C09HeadlineMore.lean (theorems that need a module which imports this file): C09Bracket.lean imports this
   file, so the statements for BRACKETED hosts that are not IPv6 addresses (IPvFuture "[v1.a:b]", "[g::1]", "[a:b]";
   GAPS 1, guard coverage) are there as `C09_headline_…_bracketed_host…`.
+  Continued further in C09HeadlineMore4.lean (headline theorems for the proof modules added after the last refresh:
+  C09More.lean; the GAPS block below cites them).
 -/
 set_option linter.unusedVariables false
 namespace Yarl
@@ -321,18 +323,63 @@ GAPS:
     stated once in C16Idn.lean), for any authority shape (userinfo, port), and end to end from the input text for
     `scheme://h/path#fragment`; under the universal form `IdnaSane` the guard on the host is purely syntactic.
     WHAT REMAINS OPEN: `IdnaSaneAt` / `IdnaSane` is itself an ASSUMPTION about `idna.encode` (trusted base): no
-    theorem can discharge it, and the differential harness does not check it on its oracle table (C16Idn.lean: decidable
-    per run, not implemented).  So for IDN inputs C09 is still conditional — on that one assumption.  It is needed:
-    C09_headline_idn_fails_for_insane_answer (hypothetical answers "a:81", "u@x", "").
+    theorem can discharge it.  (The former remark "the differential harness does not check it" is STALE: since commit
+    d1e0e7e `harness/core.py` (`check_oracle_assumption`) tests every answer the real `idna` package / stdlib codec
+    gives during a run against `IdnaSaneAt` and records counts and the answers OUTSIDE the assumption in the evidence,
+    `coverage.oracle_assumptions_checked` — and such answers DO occur, e.g. the stdlib fallback answers "xa/cy.com" for
+    "x\u2100y.com" and "2001:db8::" for a fullwidth-digit IPv6 text: those hosts are outside the per-host IDN theorems;
+    a run-time check on the inputs of a run, not a proof.)  So for IDN inputs C09 is still conditional — on that one
+    assumption.  It is needed: C09_headline_idn_fails_for_insane_answer (hypothetical answers "a:81", "u@x", "").
+    (Model change, fix 3fbf5b4: an IDNA answer that contains ':' is now re-entered into `_encode_host` — `encodeHostA`
+    — instead of being stored as is.  Nothing above changes: under `IdnaSaneAt` an answer contains no ':', so the
+    re-entry is never taken; the hostile answer "a:81" is no IP literal, the re-entry returns it unchanged and
+    C09_headline_idn_fails_for_insane_answer still holds as stated.)
+    FURTHER (guard coverage) CLOSED by C09_good_authority_of_input, C09_good_authority_iff_input,
+    C09_pickle_lossless_of_input, C09_guard_false_without_authority, C09_no_authority_twin (C09More.lean), see
+    C09_headline_guard_from_input_text, C09_headline_guard_iff_input_text, C09_headline_input_guard_def,
+    C09_headline_input_guard_covers_host_kinds, C09_headline_pickle_lossless_of_input,
+    C09_headline_guard_false_without_authority (C09HeadlineMore4.lean).  Proved: ONE decidable predicate `AuthorityOK`
+    on the authority TEXT of the input (RFC 3986 Appendix B on the cleaned input) covers every host kind at once —
+    reg-names in any letter case, trailing dots, IPv4, IPv6 with any zone, IPvFuture and other bracketed texts, IDN
+    hosts, the empty host with a written user / password / port, with or without userinfo and port; a Python-string
+    input with `AuthorityOK` is inside `GoodAuthority`, and on input that `split_url` and `split_netloc` accept
+    `GoodAuthority e s ↔ AuthorityOK (ctorAuthorityText s)` — no family is missing.  Hypotheses: `PyStr s`; for a
+    NON-ASCII host text the assumption `IdnaSaneAt` (direction "AuthorityOK ⟹ guard" only).  NEGATIVE, new:
+    `GoodAuthority` is FALSE for an input WITHOUT authority ("/a?b#c"), so the theorems of this file with that
+    hypothesis say nothing about "/path", "mailto:x"; `InputOK` (no authority, or `AuthorityOK`) includes them and
+    C09_headline_pickle_lossless_of_input states sentence 1 and 2 for it.  See item 8 for what is trusted.
  2. F-C09-bracket in KNOWN_FINDINGS names three spellings ("[[::1]", "x[::1]", "[::1]x").  In the model only "[[::1]"
     disagrees (C09_headline_fails_for_malformed_brackets); the other two agree (C09_headline_bracket_variants_agree, new)
     and lie inside the guard (host text "::1").  Replayed against /repo (pickle round trip, 2026-09): the library agrees with the
     model — raw_host "::1" on both sides for "x[::1]" / "[::1]x", "::" vs "::1" for "[[::1]".  So the text of the
     finding is broader than the C09 defect (the other two spellings are C03 matters: the stray "x" is dropped by str).
+    SHARPENED by C09_eager_lazy_iff, C09_eager_ne_lazy_iff, C09_agreeB_false_iff, C09_authorityOK_agreeB,
+    C09_guard_not_exact (C09More.lean), see C09_headline_eager_lazy_iff, C09_headline_eager_ne_lazy_iff,
+    C09_headline_boundary_predicates_def, C09_headline_boundary_examples, C09_headline_guard_sufficient_not_necessary
+    (C09HeadlineMore4.lean).  The defect is now a CLASS with an exact boundary instead of one witness: for a
+    Python-string input that the constructor accepts (with cached entries) and whose HOST TEXT IS ASCII, eager = lazy
+    IFF the decidable `AgreeB` holds of the authority text, and eager ≠ lazy IFF the authority is in class (A)
+    `NormalisesToEmpty` (item 7) or class (B) `MalformedBrackets` = a '[' inside the host text, which is no IPv6
+    literal, except the odd texts without port whose eager and lazy raw_host coincide (`OddHost`: "[" or everything
+    after the first character is '[').  By computation "[[::1]", "[x:[]:80", "[A:[]" are in class (B) and "x[::1]" /
+    "[::1]x" satisfy `AgreeB`.  KNOWN FINDING F-C09-bracket stays a finding (class (B) is non-empty).  NEGATIVE about
+    the guard: `GoodAuthority` is sufficient but NOT necessary — "foo://[:[]/", "foo://[:[[]/", "foo://[a:b]@[[]/" are
+    outside it and agree.  Not covered: non-ASCII host texts (no exact boundary; only the sufficient guard under
+    `IdnaSaneAt`, item 1).
  3. "every accessor": the accessor lists of C09_all_accessors_of_net (15) and C09_twin_pure_accessors(_more) (25) are
     enumerations; completeness w.r.t. the public API is by inspection (C08Yarl's `Acc` has 34 names and
     C08_yarl_read_eq_model_all proves the same fact for every NAME of that table).  `query` is `queryPairs`; `raw_query`,
     `scheme`, `raw_fragment`, `raw_authority` are fields and agree by `C09_twin_parts`.
+    PARTLY CLOSED by C09_accessor_list_complete, C09_every_accessor, C09_indist_every_accessor,
+    C09_eager_entries_are_lazy (C09More.lean), see C09_headline_accessor_list, C09_headline_every_accessor,
+    C09_headline_indistinguishable_every_accessor, C09_headline_same_value_def, C09_headline_eager_entries_are_lazy
+    (C09HeadlineMore4.lean).  Proved: ONE theorem quantified over `Acc9`, a list with one name per accessor function of
+    YarlModel/Url.lean (53 names, the comparisons against an arbitrary other URL on either side included): under
+    `GoodAuthority e s`, for every name the value read from the restored URL is "the same" (`AccVal.Same`) as the value
+    read from the constructor result; `parent` / `origin()` / `relative()` return indistinguishable URLs (`Indist`), and
+    indistinguishable URLs agree on every name again.  Completeness of `Acc9` w.r.t. the FILE Url.lean is a BUILD-TIME
+    assertion (`run_cmd` in C09More.lean), not a theorem (item 8).  STILL OPEN: completeness w.r.t. the PUBLIC API of
+    the Python library is by inspection, as before (C08Yarl's `Acc` table).
  4. "same hash": the model has no hash function; "same `eqKey`" is the tuple that is hashed.  That the cached
     `_cache["hash"]` entry is not carried over by pickling (and need not be) is not modelled.
  5. pickle format: `__reduce__`/`__setstate__` are not modelled beyond "the five strings survive"; unpickling data NOT
@@ -346,6 +393,37 @@ GAPS:
     (The non-empty-host case was the defect fixed by 2fdb38c and agrees now: C09_headline_surrogate_user_agrees.)
     Both are evaluated on the compiled backend only (`envC`); for the pure-Python backend there is the quoter fact
     C09_requote_lone_surrogate but no evaluated `eagerLazy` theorem.
+    PARTLY CLOSED by C09_eager_ne_lazy_iff, C09_normalises_to_empty_ascii (C09More.lean), see
+    C09_headline_eager_ne_lazy_iff, C09_headline_normalises_to_empty_ascii, C09_headline_boundary_examples,
+    C09_headline_surrogate_user_empty_host_disagrees_any_backend (C09HeadlineMore4.lean).  Proved: class (A)
+    `NormalisesToEmpty` — empty host, no '[', no written user (absent, "" or lone surrogates only), no password, no port
+    text — is exactly the empty-host half of the disagreement (ASCII host text; the empty host text is ASCII); among the
+    non-empty authority texts WITHOUT lone surrogates it is exactly "@", ":" and "@:"; the member named here (a
+    lone-surrogate user in front of "@") is in the class by computation, and that users of lone surrogates only in front
+    of "@" / "@:" are the ONLY further members is said in C09More.lean's doc comment but not proved; a lone-surrogate
+    user in front of a non-empty host satisfies `AgreeB` (computed).  For "foo://\udc80@/x" the disagreement is now
+    stated for EVERY backend and oracle table, CONDITIONALLY: whenever the constructor accepts the input and caches
+    entries `p`, the restored URL does not derive `p`.  STILL OPEN: an evaluated `eagerLazy` theorem for the pure-Python
+    backend (acceptance of that input there is not evaluated).
+ 8.  NEW.  Trusted definitions and side conditions introduced by the theorems that close / sharpen 1, 2, 3, 7
+    (C09More.lean).  (a) `Acc9`, `Acc9.read`, `AccVal`, `AccVal.Same`, `Indist` are hand-written: "every accessor"
+    means "every name of `Acc9`" and "the same value" means `AccVal.Same` (equality, except for URL-valued accessors:
+    same error or `Indist` results — NOT equality of the `Url` records: the eager cache `pre` of the two may differ);
+    both are spelled out by C09_headline_accessor_list / C09_headline_same_value_def and must be READ.  (b) That no
+    accessor function of YarlModel/Url.lean is missing from `Acc9.read` is checked by a build-time `run_cmd`: every
+    definition of module YarlModel.Url with an argument of type `Url` must be in one of two hand-written name lists
+    (`R9.accessorFns`, `R9.modifierFns`) and every name of the first must occur in the body of `Acc9.read`.  This is an
+    assertion on the environment, not a theorem; it looks at arguments of type exactly `Url` (not `Option Url` /
+    `List Url`), at module YarlModel.Url only, and the split accessor / modifier is by hand.  (c) `ctorAuthorityText`,
+    `hostText`, `userWritten`, `AuthorityOK`, `InputOK`, `AgreeB`, `OddHost`, `NormalisesToEmpty`, `MalformedBrackets`
+    are new decidable predicates on TEXT whose reading must be trusted (spelled out by `rfl`:
+    C09_headline_input_guard_def, C09_headline_boundary_predicates_def); `ctorAuthorityText` uses the independent
+    Appendix-B splitter `Rfc.appendixB`, tied to `split_url` by proof only on accepted input.  (d) Hypotheses: `PyStr s`
+    everywhere; the iff of item 1 needs the input accepted by `split_url` and `split_netloc`; the exact boundary (items
+    2, 7) needs `encodeUrl e s = .ok u`, `u.pre = some p` and an ASCII host text — for NON-ASCII hosts there is no exact
+    boundary, and `IdnaSaneAt` is sufficient, not necessary (e.g. a fullwidth-digit IPv6 text, fix 3fbf5b4, has an
+    IDNA answer with ':' — outside `IdnaSaneAt` — for which no theorem from the input text is stated).  (e) From
+    C09More.lean's own list, not closable in the model: items 4, 5, 6 (unchanged).
 -/
 
 end Yarl
